@@ -3,7 +3,7 @@ CONSTANTS
   LibName = "dup"
   NodeIds = {1, 2, 3, 4, 5}
   OpKinds = {"instantiate", "alias", "set_arg", "export"}
-  InitReg = {"d1", "d2", "d3", "dc"}
+  InitReg = {"d1", "d2", "d3", "d4", "dc"}
   DEV_StaleSat = FALSE
   DEV_StaleExports = FALSE
   DEV_DoubleRemove = FALSE
